@@ -28,6 +28,15 @@ type c11Script struct {
 	maxDepth int  // nesting of Lua->Go->Lua re-entry + protected calls the script can reach (for the bound)
 }
 
+// c11Pre: a prelude that runs on the same state before every run of the script of that name, while
+// NO context is attached: what it creates (parked in a library table, globals are reset between
+// runs) predates SetContext.
+var c11Pre = map[string]string{
+	"co-made-before-setcontext-spins":               `string.verif_co = coroutine.create(function() local n = 0 while true do n = n + 1 if n % 7 == 0 then emit("in", n) end end end)`,
+	"co-made-before-setcontext-creates-the-spinner": `string.verif_maker = coroutine.wrap(function() while true do coroutine.yield(coroutine.wrap(function() local n = 0 while true do n = n + 1 if n % 7 == 0 then emit("in", n) end end end)) end end)`,
+	"co-suspended-before-setcontext-resumed-after":  `string.verif_gen = coroutine.create(function() local n = 0 while true do n = n + 1 coroutine.yield(n) end end) coroutine.resume(string.verif_gen)`,
+}
+
 var c11Scripts = []c11Script{
 	{"while-true", `local i = 0 while true do i = i + 1 if i % 7 == 0 then emit("w", i) end end`, false, 1},
 	{"numfor-long", `local s = 0 for i = 1, 1e9 do s = s + i if i % 9 == 0 then emit("f", i) end end`, false, 1},
@@ -53,6 +62,10 @@ var c11Scripts = []c11Script{
 	{"co-nested", `local inner = coroutine.wrap(function() while true do coroutine.yield(1) end end) local outer = coroutine.wrap(function() while true do coroutine.yield(inner()) end end) local n = 0 while true do n = n + outer() if n % 5 == 0 then emit("n", n) end end`, true, 4},
 	{"pcall-in-co", `local co = coroutine.wrap(function() repeat pcall(function() emit("e") error("x") end) until false end) co()`, true, 4},
 	{"hostcall-loop", `while true do hcall(function() emit("hc") return 1 end) end`, false, 2},
+	// coroutines that exist before the context is attached
+	{"co-made-before-setcontext-spins", `emit("res", coroutine.resume(string.verif_co)) emit("after") while true do end`, true, 3},
+	{"co-made-before-setcontext-creates-the-spinner", `local inner = string.verif_maker() emit("got") inner()`, true, 4},
+	{"co-suspended-before-setcontext-resumed-after", `while true do local ok, v = coroutine.resume(string.verif_gen) if v % 3 == 0 then emit("y", v) end end`, true, 3},
 	// terminating programs: cancellation beyond their end must change nothing
 	{"term-arith", `local s = 0 for i = 1, 20 do s = s + i * i end emit("sum", s) return s`, false, 1},
 	{"term-pcall", `local ok, e = pcall(error, {}) emit("pc", ok, type(e)) local t = {} for i = 1, 5 do t[i] = tostring(i) end emit(table.concat(t)) return #t`, false, 2},
@@ -111,7 +124,15 @@ func runC11(r *harness.Run) {
 			r.Violation("cancel/"+sc.name+"/"+seam+"/"+class, fmt.Sprintf("%s\ncancellation at instruction %d (%s)\nscript: %s", what, k, seam, sc.src),
 				map[string]interface{}{"script": sc.name, "source": sc.src, "cancel_at": k, "seam": seam})
 		}
+		prep := func() {
+			if pre := c11Pre[sc.name]; pre != "" {
+				if o := m.Run(pre, 100000); o.Failed {
+					harness.Fatal("c11: prelude of %s failed: %s", sc.name, o.ErrText)
+				}
+			}
+		}
 		// base: no context, bounded by the instruction budget
+		prep()
 		base := m.Run(sc.src, H+400)
 		terminates := !base.Failed
 		horizon := H
@@ -125,6 +146,7 @@ func runC11(r *harness.Run) {
 		}
 		// attached but never cancelled: identical behaviour
 		{
+			prep()
 			ctx, cancel := context.WithCancel(context.Background())
 			m.L.SetContext(ctx)
 			o := m.Run(sc.src, H+400)
@@ -149,6 +171,7 @@ func runC11(r *harness.Run) {
 					continue
 				}
 				var o glrun.Outcome
+				prep()
 				if seam == "hook" {
 					ctx, cancel := context.WithCancel(context.Background())
 					m.L.SetContext(ctx)
